@@ -1,14 +1,16 @@
 #!/bin/bash
-# usage: verify_seed.sh <wt> <mutant dir> "<test cmd>"  -- confirms: demo passes clean, fails patched; tests pass patched
+# usage: verify_seed.sh <wt> <mutant dir> "<build+test cmd>"
+# confirms in the scratch worktree: (clean) build+demo passes; (patched) compiles, existing tests pass, demo fails
 WT=$1; M=$2; TEST=$3
 cd $WT || exit 2
-git checkout -q -- . 
-cmd=$(grep -E "^//\s+g\+\+" -A4 $M/demo.cpp | sed 's#^//##' | tr -d '\\\n' | sed 's/&&.*//')
+git checkout -q -- .
+cmd=$(grep -E "^//\s+g\+\+" -A6 $M/demo.cpp | sed 's#^//##' | tr -d '\\\n' | sed 's/&&.*//')
 out=$(echo "$cmd" | grep -o "\-o [^ ]*" | head -1 | cut -d' ' -f2)
+bash -c "$TEST" > /tmp/verify_seed_test_clean.log 2>&1
 bash -c "$cmd" >/dev/null 2>&1 && $out >/dev/null 2>&1; clean=$?
 git apply $M/patch.diff || { echo "apply failed"; exit 2; }
+bash -c "$TEST" > /tmp/verify_seed_test.log 2>&1; t=$?
 bash -c "$cmd" >/dev/null 2>&1; comp=$?
 $out >/dev/null 2>&1; mut=$?
-bash -c "$TEST" > /tmp/verify_seed_test.log 2>&1; t=$?
 git checkout -q -- .
 echo "$M: demo clean=$clean (want 0) compile_patched=$comp (want 0) demo patched=$mut (want !=0) tests_patched=$t (want 0)"
